@@ -214,7 +214,19 @@ func checkC19(w *World, r *Report) {
 			isFlag := func(v Val) bool { return v.V == ssa.Value(fn.Params[2]) }
 			flag := p.hasBool(-1, true, isFlag)
 			noflag := p.hasBool(-1, false, isFlag)
-			isE := strings.Contains(strings.ToLower(shortType(ct)), "ewma")
+			// flavour = how the type's accounting methods (own or promoted from an embedded proxy) account:
+			// all through the Ewma increment, or all through the plain one
+			flavours := map[string]bool{}
+			for _, mn := range []string{"Read", "Write", "WriteTo", "ReadFrom"} {
+				if k := w.proxyMethodFlavour(ct, mn); k != "" {
+					flavours[k] = true
+				}
+			}
+			if len(flavours) != 1 {
+				bad = fmt.Sprintf("the accounting methods of %s (own and promoted) do not all use the same kind of increment: bytes moved through one of them never reach (or wrongly reach) the moving-average decorators", shortType(ct))
+				return
+			}
+			isE := flavours["ewma"]
 			if !(flag || noflag) || isE != flag {
 				bad = "the ewma flavour of the proxy is not chosen by the constructor's flag"
 				return
@@ -377,4 +389,54 @@ func checkC19(w *World, r *Report) {
 	ruleSamplesReach(w, r, "C19")
 	ruleUnwrap(w, r, "C19")
 	ruleLoopVarCapture(w, r, "C19.LOOPVAR")
+}
+
+
+// proxyMethodFlavour: "ewma" / "plain" when method name of type t (declared or promoted) hands its
+// byte count to the bar's Ewma / plain increment; "" when t has no such method or it accounts nothing.
+func (w *World) proxyMethodFlavour(t types.Type, name string) string {
+	sel := w.Prog.MethodSets.MethodSet(t).Lookup(nil, name)
+	if sel == nil {
+		return ""
+	}
+	fn := w.Prog.MethodValue(sel)
+	for i := 0; i < 4 && fn != nil && fn.Synthetic != ""; i++ {
+		// promotion / pointer wrappers: the method they forward to
+		var next *ssa.Function
+		for _, b := range fn.Blocks {
+			for _, in := range b.Instrs {
+				if c, ok := in.(*ssa.Call); ok {
+					if sc := c.Call.StaticCallee(); sc != nil && sc.Name() == name {
+						next = sc
+					}
+				}
+			}
+		}
+		fn = next
+	}
+	if fn == nil || fn.Blocks == nil || fn.Pkg != w.Mpb {
+		return "" // e.g. promoted from the wrapped interface value: not an accounting method
+	}
+	out := ""
+	for _, b := range fn.Blocks {
+		for _, in := range b.Instrs {
+			c, ok := in.(*ssa.Call)
+			if !ok {
+				continue
+			}
+			sc := c.Call.StaticCallee()
+			if sc == nil || sc.Signature.Recv() == nil || typeName(sc.Signature.Recv().Type()) != tBar {
+				continue
+			}
+			switch sc.Name() {
+			case "EwmaIncrBy", "EwmaIncrInt64":
+				out = "ewma"
+			case "IncrBy", "IncrInt64":
+				if out == "" {
+					out = "plain"
+				}
+			}
+		}
+	}
+	return out
 }
